@@ -175,4 +175,59 @@ theorem hasLS_iff (l : Bytes) :
       · exact Or.inl ⟨rfl, Or.inr h⟩
       · exact Or.inr (Or.inr h)
 
+/-! ### The PreserveRawStrings loop of ReformatString -/
+
+theorem noHTML_take {l : Bytes} (n : Nat) (h : noHTML l) : noHTML (l.take n) :=
+  fun b hb => h b (List.mem_of_mem_take hb)
+
+theorem preserveLoop_noHTML (js : Bool) (k : Nat) (src : Bytes) : noHTML (preserveLoop true js k src) := by
+  fun_induction preserveLoop true js k src with
+  | case1 => intro b hb; simp at hb
+  | case2 => intro b hb; simp at hb
+  | case3 k c t s ih =>
+    apply noHTML_append _ ih
+    by_cases h0 : c.toNat < runeSelf
+    · have h128 : c.toNat < 128 := h0
+      by_cases hc : isHTMLChar c.toNat = true
+      · have hs : s = (some (appendEscapedASCII c.toNat), 1) := by
+          show preserveStep true js c t = _
+          simp [preserveStep, h0, hc]
+        rw [hs]
+        intro b hb
+        have := escaped_noHTML ⟨c.toNat, h128⟩
+        simp only [List.all_eq_true, Bool.not_eq_eq_eq_not, Bool.not_true] at this
+        exact this b hb
+      · have hs : s = (none, 1) := by
+          show preserveStep true js c t = _
+          simp [preserveStep, h0, hc]
+        rw [hs]
+        intro b hb
+        have hb' : b ∈ [c] := by
+          have : min 1 (k + 1) = 1 := by omega
+          simpa [this] using hb
+        simp only [List.mem_singleton] at hb'; rw [hb']
+        simpa using hc
+    · have hhigh := decodeRune_take_high c t h0
+      have hT : noHTML ((c :: t).take (decodeRune (c :: t)).2) := by
+        intro b hb; have := hhigh b hb
+        simp [isHTMLChar]; omega
+      by_cases hj : ((decodeRune (c :: t)).1 = 0x2028 ∨ (decodeRune (c :: t)).1 = 0x2029) ∧ js = true
+      · have hs : s = (some (appendEscapedUnicode (decodeRune (c :: t)).1), (decodeRune (c :: t)).2) := by
+          show preserveStep true js c t = _
+          simp only [preserveStep, h0, ↓reduceIte]; rw [if_pos hj]
+        rw [hs]
+        have e1 : noHTML (appendEscapedUnicode 0x2028) := by intro b; revert b; decide
+        have e2 : noHTML (appendEscapedUnicode 0x2029) := by intro b; revert b; decide
+        rcases hj.1 with h | h <;> simp only [h]
+        · exact e1
+        · exact e2
+      · have hs : s = (none, (decodeRune (c :: t)).2) := by
+          show preserveStep true js c t = _
+          simp only [preserveStep, h0, ↓reduceIte]; rw [if_neg hj]
+        rw [hs]
+        intro b hb
+        have hb' : b ∈ (c :: t).take (min (decodeRune (c :: t)).2 (k + 1)) := by simpa using hb
+        rw [Nat.min_comm, ← List.take_take] at hb'
+        exact hT b (List.mem_of_mem_take hb')
+
 end JsonV.Lemmas.QuoteSafe
